@@ -22,7 +22,7 @@ type Params struct {
 	SetBlockHook func(func(uint32))
 	// SetSyncHook installs the synchronisation-point hook (verifsim.SyncHook)
 	SetSyncHook func(func(uint32))
-	Idx     int
+	Idx         int
 }
 
 func allowedKinds(cold bool) []int {
